@@ -1,142 +1,228 @@
-(* C01 without the no-collision premise, the late joiner: a node that starts empty and applies a snapshot of the primary - every
-   page the primary would serve a reader, at the primary's position - holds the primary's logical database. *)
-From Coq Require Import NArith List Lia ZifyN ZifyNat ZifyBool Bool Arith Sorted.
-Require Import LF.Gen.ConstsGen LF.Model.PageDB LF.Proofs.XorLib LF.Proofs.ChecksumProofs LF.Proofs.CaptureProofs
-  LF.Proofs.ChainProofs LF.Proofs.ApplyProofs
-  LF.Proofs.HistoryProofs LF.Proofs.WalHistoryProofs LF.Proofs.WalCheckpointProofs LF.Proofs.SqlCheckpointProofs
-  LF.Proofs.ApplyHistoryProofs LF.Proofs.OpenProofs LF.Proofs.ComposeProofs LF.Proofs.FollowProofs LF.Proofs.FollowWalProofs
-  LF.Proofs.FollowGProofs LF.Proofs.ExportProofs.
+(* C10: with the lock hand-over that takes READ before releasing WRITE, every interleaving gives the image
+   of the captured position; with Export's order there is a schedule that gives a mixture. *)
+From Coq Require Import NArith List Bool Lia Arith.
+Require Import LF.Model.PageDB LF.Model.Snapshot.
 Import ListNotations.
 Local Open Scope N_scope.
 
-(* the pages of a snapshot: what readPage returns for every page of the database but the lock page *)
-Fixpoint snap_pages (s : st) (p : N) (n : nat) : list (N * pg) :=
-  match n with
-  | O => []
-  | S n' => (match read_page s p with Some q => if p =? lockpg s then [] else [(p, q)] | None => [] end) ++ snap_pages s (p + 1) n'
-  end.
-Definition snapshot_file (s : st) : ltxrec :=
-  mkLtx 1 (txid s) 0 (chk s) (pageN s) (snap_pages s 1 (N.to_nat (pageN s))).
-
-Lemma alookup_app {A} x (l1 l2 : list (N * A)) :
-  alookup x (l1 ++ l2) = match alookup x l1 with Some q => Some q | None => alookup x l2 end.
-Proof. induction l1 as [|[k v] l1 IH]; cbn [app alookup]; [reflexivity|]. destruct (x =? k); [reflexivity|exact IH]. Qed.
-
-Lemma snap_lookup s : forall n a x, alookup x (snap_pages s a n) =
-  if (a <=? x) && (x <? a + N.of_nat n) && negb (x =? lockpg s) then read_page s x else None.
+Lemma alookup_app {A} p (a b : list (N * A)) :
+  alookup p (a ++ b) = match alookup p a with Some q => Some q | None => alookup p b end.
 Proof.
-  induction n as [|n IH]; intros a x; cbn [snap_pages alookup].
-  - destruct (N.leb_spec a x), (N.ltb_spec x (a + N.of_nat 0)); cbn [andb]; try reflexivity. lia.
-  - rewrite alookup_app, IH.
-    destruct (N.eq_dec x a) as [->|Hne].
-    + destruct (N.leb_spec a a); [|lia]. destruct (N.ltb_spec a (a + N.of_nat (S n))); [|lia]. cbn [andb].
-      destruct (N.leb_spec (a + 1) a); [lia|]. cbn [andb].
-      destruct (read_page s a) as [q|]; [|destruct (negb (a =? lockpg s)); reflexivity].
-      destruct (a =? lockpg s); cbn [alookup negb]; [reflexivity|]. rewrite N.eqb_refl. reflexivity.
-    + assert (alookup x (match read_page s a with Some q => if a =? lockpg s then [] else [(a, q)] | None => [] end) = None) as ->.
-      { destruct (read_page s a); [|reflexivity]. destruct (a =? lockpg s); [reflexivity|]. cbn [alookup]. destruct (N.eqb_spec x a); [contradiction|reflexivity]. }
-      destruct (N.leb_spec a x), (N.leb_spec (a + 1) x), (N.ltb_spec x (a + 1 + N.of_nat n)), (N.ltb_spec x (a + N.of_nat (S n))); try lia; reflexivity.
+  induction a as [|[k v] r IH]; cbn [app alookup]; [reflexivity|]. destruct (p =? k); [reflexivity|exact IH].
 Qed.
 
-Lemma snap_keys_range s : forall n a k, In k (map fst (snap_pages s a n)) -> a <= k < a + N.of_nat n.
+(* ghost consistency: what a connection sees is the image of the current position, older images never change *)
+Definition G (s : sst) : Prop := forall p, view s p = s_hist s (s_pos s) p.
+Definition Hd (s : sst) (a b c d : bool) : Prop :=
+  s_held s SLShared = a /\ s_held s SLWrite = b /\ s_held s SLCkpt = c /\ s_held s SLRead = d.
+
+Lemma oev_keeps_reader s o :
+  s_held (oev_exec s o) = s_held s /\ s_cpos (oev_exec s o) = s_cpos s /\ s_cwal (oev_exec s o) = s_cwal s /\ s_out (oev_exec s o) = s_out s.
+Proof. unfold oev_exec. destruct (negb (oev_allowed s o)); [tauto|]. destruct o; cbn; tauto. Qed.
+
+Lemma oev_G s o : G s -> G (oev_exec s o).
 Proof.
-  induction n as [|n IH]; intros a k Hin; cbn [snap_pages map] in Hin; [destruct Hin|].
-  rewrite map_app, in_app_iff in Hin. destruct Hin as [Hin|Hin].
-  - destruct (read_page s a); [|destruct Hin]. destruct (a =? lockpg s); [destruct Hin|]. destruct Hin as [<-|[]]. cbn [fst]. lia.
-  - apply IH in Hin. lia.
+  intros HG. unfold oev_exec. destruct (negb (oev_allowed s o)) eqn:Ea; [exact HG|].
+  destruct o as [w| |w]; unfold G, view in *; cbn [newpos s_file s_wal s_pos s_hist]; intros p.
+  - rewrite Nat.eqb_refl, alookup_app. unfold fupd, view. destruct (alookup p w); reflexivity.
+  - cbn. apply HG.
+  - assert (s_wal s = []) as Hr by (cbn [oev_allowed] in Ea; apply negb_false_iff, andb_true_iff in Ea; destruct Ea as [_ Ea]; destruct (s_wal s); [reflexivity|discriminate]).
+    rewrite Nat.eqb_refl. unfold fupd, view. rewrite Hr. cbn [alookup]. destruct (alookup p w); reflexivity.
 Qed.
-Lemma snap_keys_nodup s : forall n a, KeysNoDup (snap_pages s a n).
+Lemma oev_hist_old s o n : (n <= s_pos s)%nat -> s_hist (oev_exec s o) n = s_hist s n /\ (s_pos s <= s_pos (oev_exec s o))%nat.
 Proof.
-  unfold KeysNoDup. induction n as [|n IH]; intros a; cbn [snap_pages map]; [constructor|].
-  rewrite map_app. destruct (read_page s a) as [q|]; [|apply IH]. destruct (a =? lockpg s); [apply IH|].
-  cbn [map app fst]. constructor; [|apply IH]. intros Hin. apply snap_keys_range in Hin. lia.
+  intros Hn. unfold oev_exec. destruct (negb (oev_allowed s o)); [split; [reflexivity|lia]|].
+  destruct o; cbn [newpos s_hist s_pos]; try (split; [reflexivity|lia]);
+    (split; [destruct (Nat.eqb_spec n (S (s_pos s))); [lia|reflexivity]|lia]).
 Qed.
 
-(* what readPage returns is the logical page *)
-Lemma read_page_lpage s : LatestEq s -> forall x, match read_page s x with Some q => q | None => zero_pg end = lpage s x.
+(* ---------- the safe hand-over ---------- *)
+Section Safe.
+  Variable pages : list N.
+  Let tail := [SRelease SLCkpt; SRelease SLRead; SRelease SLShared].
+
+  (* the captured view: what the reader will read for page p as long as the file does not change *)
+  Definition capeq (s : sst) (n : nat) (cw : list (N * pg)) : Prop :=
+    forall p, match alookup p cw with Some q => q | None => s_file s p end = s_hist s n p.
+
+  Inductive Ph : list sstep -> sst -> Prop :=
+  | Ph0 s : G s -> s_cpos s = None -> s_cwal s = None -> s_out s = [] -> Hd s false false false false ->
+            Ph (safe_script pages) s
+  | Ph1 s : G s -> s_cpos s = None -> s_cwal s = None -> s_out s = [] -> Hd s true false false false ->
+            Ph ([SAcquire SLWrite; SCapturePos; SCaptureWal; SAcquire SLCkpt; SAcquire SLRead; SRelease SLWrite] ++ reads pages ++ tail) s
+  | Ph2 s : G s -> s_cpos s = None -> s_cwal s = None -> s_out s = [] -> Hd s true true false false ->
+            Ph ([SCapturePos; SCaptureWal; SAcquire SLCkpt; SAcquire SLRead; SRelease SLWrite] ++ reads pages ++ tail) s
+  | Ph3 s : G s -> s_cpos s = Some (s_pos s) -> s_cwal s = None -> s_out s = [] -> Hd s true true false false ->
+            Ph ([SCaptureWal; SAcquire SLCkpt; SAcquire SLRead; SRelease SLWrite] ++ reads pages ++ tail) s
+  | Ph4 s n cw c d : G s -> s_cpos s = Some n -> s_cwal s = Some cw -> (n <= s_pos s)%nat -> capeq s n cw -> s_out s = [] ->
+            Hd s true true c d -> (c = false -> d = false) ->
+            Ph ((if c then [] else [SAcquire SLCkpt]) ++ (if d then [] else [SAcquire SLRead]) ++ [SRelease SLWrite] ++ reads pages ++ tail) s
+  | Ph5 s n cw rest : G s -> s_cpos s = Some n -> s_cwal s = Some cw -> (n <= s_pos s)%nat -> capeq s n cw -> out_is_image s ->
+            Hd s true false true true ->
+            Ph (reads rest ++ tail) s
+  | Ph6 s rem : G s -> out_is_image s -> (forall n, s_cpos s = Some n -> (n <= s_pos s)%nat) -> (exists k, rem = skipn k tail) -> Ph rem s.
+
+  Hypothesis Hwf : True.
+
+  Lemma Ph_oev rem s o : Ph rem s -> Ph rem (oev_exec s o).
+  Proof.
+    intros H. destruct (oev_keeps_reader s o) as [Eh [Ec [Ew Eo]]].
+    assert (forall a b c d, Hd s a b c d -> Hd (oev_exec s o) a b c d) as HdK by (unfold Hd; rewrite Eh; tauto).
+    inversion H; subst.
+    - apply Ph0; try (rewrite ?Ec, ?Ew, ?Eo; assumption); [apply oev_G; assumption|auto].
+    - apply Ph1; try (rewrite ?Ec, ?Ew, ?Eo; assumption); [apply oev_G; assumption|auto].
+    - apply Ph2; try (rewrite ?Ec, ?Ew, ?Eo; assumption); [apply oev_G; assumption|auto].
+    - (* position captured, WRITE held: nobody commits, nothing rewrites the file *)
+      match goal with Hh : Hd s true true false false |- _ => destruct Hh as [Hs [Hw _]] end.
+      assert (oev_exec s o = s) as ->; [|exact H].
+      unfold oev_exec. destruct o; cbn [oev_allowed]; rewrite ?Hw, ?Hs; reflexivity.
+    - (* WRITE held *)
+      match goal with Hh : Hd s true true c d |- _ => destruct Hh as [Hs [Hw _]] end.
+      assert (oev_exec s o = s) as ->; [|exact H].
+      unfold oev_exec. destruct o; cbn [oev_allowed]; rewrite ?Hw, ?Hs; reflexivity.
+    - (* SHARED and READ held: commits may append frames, the file stays *)
+      match goal with Hh : Hd s true false true true |- _ => destruct Hh as [Hs [Hw [Hc Hrd]]] end.
+      destruct (oev_hist_old s o n ltac:(assumption)) as [Hh Hp].
+      apply (Ph5 (oev_exec s o) n cw rest).
+      * apply oev_G; assumption.
+      * rewrite Ec; assumption.
+      * rewrite Ew; assumption.
+      * lia.
+      * (* capeq: the file is unchanged *)
+        unfold capeq in *. intros p. rewrite Hh.
+        assert (s_file (oev_exec s o) = s_file s) as ->; [|auto].
+        unfold oev_exec. destruct o; cbn [oev_allowed]; rewrite ?Hw, ?Hs, ?Hc, ?Hrd; cbn; reflexivity.
+      * unfold out_is_image in *. rewrite Ec, Eo.
+        match goal with Hc' : s_cpos s = Some n |- _ => rewrite Hc' in * end. intros p q Hin. rewrite Hh. auto.
+      * apply HdK. unfold Hd. tauto.
+    - match goal with Hle : forall n, s_cpos s = Some n -> (n <= s_pos s)%nat |- _ => rename Hle into Hpos end.
+      apply Ph6; [apply oev_G; assumption| | |assumption].
+      + unfold out_is_image in *. rewrite Ec, Eo. destruct (s_cpos s) as [n|] eqn:En; [|assumption].
+        intros p q Hin. destruct (oev_hist_old s o n (Hpos n eq_refl)) as [Hh _]. rewrite Hh. auto.
+      + rewrite Ec. intros n En. destruct (oev_hist_old s o n (Hpos n En)) as [_ Hp]. specialize (Hpos n En). lia.
+  Qed.
+
+  Lemma hold_Hd s l b : forall a1 a2 a3 a4, Hd s a1 a2 a3 a4 ->
+    Hd (set_held s (hold s l b))
+       (match l with SLShared => b | _ => a1 end) (match l with SLWrite => b | _ => a2 end)
+       (match l with SLCkpt => b | _ => a3 end) (match l with SLRead => b | _ => a4 end).
+  Proof. intros a1 a2 a3 a4 [H1 [H2 [H3 H4]]]. unfold Hd, set_held, hold. cbn [s_held]. destruct l; tauto. Qed.
+
+  (* one step of the reader moves to the next phase *)
+  Lemma Ph_step st rest s : Ph (st :: rest) s -> Ph rest (sstep_exec s st).
+  Proof.
+    intros H. inversion H as [s0 HG Hc Hw Ho Hh Erem|s0 HG Hc Hw Ho Hh Erem|s0 HG Hc Hw Ho Hh Erem|s0 HG Hc Hw Ho Hh Erem
+                             |s0 n cw c d HG Hc Hw Hle Hce Ho Hh Hcd Erem|s0 n cw rs HG Hc Hw Hle Hce Ho Hh Erem|s0 rem HG Ho Hpos [k Ek] Erem]; subst s0.
+    - (* acquire SHARED *) unfold safe_script in Erem. cbn [app] in Erem. inversion Erem; subst. apply Ph1; try assumption.
+      apply (hold_Hd s SLShared true _ _ _ _ Hh).
+    - cbn [app] in Erem. inversion Erem; subst. apply Ph2; try assumption. apply (hold_Hd s SLWrite true _ _ _ _ Hh).
+    - cbn [app] in Erem. inversion Erem; subst. apply Ph3; try assumption; reflexivity.
+    - (* capture of the frame offsets, in the same state as the position *)
+      cbn [app] in Erem. inversion Erem; subst.
+      apply (Ph4 _ (s_pos s) (s_wal s) false false); cbn [sstep_exec s_cpos s_cwal s_pos s_file s_hist s_out]; try assumption; try reflexivity; try lia;
+        try tauto; try (unfold capeq; cbn [s_file s_hist]; intros p; apply HG).
+    - (* taking CKPT, READ, releasing WRITE *)
+      destruct c, d; cbn [app] in Erem; inversion Erem; subst.
+      + (* release WRITE: reading starts *)
+        apply (Ph5 _ n cw pages); cbn [sstep_exec set_held s_cpos s_cwal s_pos s_file s_hist s_out]; try assumption.
+        * unfold out_is_image. cbn. rewrite Hc, Ho. intros p q [].
+        * apply (hold_Hd s SLWrite false _ _ _ _ Hh).
+      + (* acquire READ *)
+        apply (Ph4 _ n cw true true); cbn [sstep_exec set_held s_cpos s_cwal s_pos s_file s_hist s_out]; try assumption; [|tauto].
+        apply (hold_Hd s SLRead true _ _ _ _ Hh).
+      + specialize (Hcd eq_refl). discriminate.
+      + (* acquire CKPT *)
+        apply (Ph4 _ n cw true false); cbn [sstep_exec set_held s_cpos s_cwal s_pos s_file s_hist s_out]; try assumption; [|discriminate].
+        apply (hold_Hd s SLCkpt true _ _ _ _ Hh).
+    - (* a read, or the first release *)
+      destruct rs as [|p rs]; cbn [reads map app] in Erem; inversion Erem; subst.
+      + apply Ph6; cbn [sstep_exec set_held s_cpos s_pos s_out]; try assumption.
+        * intros m Em. rewrite Hc in Em. inversion Em; subst. exact Hle.
+        * exists 1%nat. reflexivity.
+      + apply (Ph5 _ n cw rs); cbn [sstep_exec s_cpos s_cwal s_pos s_file s_hist s_out s_held]; try assumption.
+        unfold out_is_image in *. cbn [s_cpos s_out s_hist]. rewrite Hc in *. rewrite Hw. intros p' q' Hin.
+        apply in_app_or in Hin. destruct Hin as [Hin|[Hin|[]]]; [auto|]. inversion Hin; subst. apply Hce.
+    - (* releases at the end *)
+      destruct k as [|[|[|k]]]; cbn [skipn tail] in Ek; try (rewrite skipn_nil in Ek); try discriminate Ek; inversion Ek; subst.
+      + apply Ph6; cbn [sstep_exec set_held s_cpos s_pos s_out]; try assumption. exists 1%nat. reflexivity.
+      + apply Ph6; cbn [sstep_exec set_held s_cpos s_pos s_out]; try assumption. exists 2%nat. reflexivity.
+      + apply Ph6; cbn [sstep_exec set_held s_cpos s_pos s_out]; try assumption. exists 3%nat. reflexivity.
+  Qed.
+
+  Lemma exec_Ph sc : forall rem s, Ph rem s -> Ph (snd (exec s rem sc)) (fst (exec s rem sc)).
+  Proof.
+    induction sc as [|e r IH]; intros rem s H; cbn [exec]; [exact H|].
+    destruct e as [|o].
+    - destruct rem as [|st rest]; [apply IH; exact H|]. apply IH. apply Ph_step. exact H.
+    - apply IH. apply Ph_oev. exact H.
+  Qed.
+
+  Lemma Ph_out rem s : Ph rem s -> out_is_image s.
+  Proof.
+    intros H. inversion H; subst; try assumption;
+      unfold out_is_image; match goal with Ho : s_out s = [] |- _ => rewrite Ho end; destruct (s_cpos s); try reflexivity; intros p q [].
+  Qed.
+
+  (* for every image, every schedule of other connections' commits and checkpoints and every point at which
+     it is cut, whatever the reader has produced is the image of the position it captured *)
+  Theorem safe_handover_atomic img sc :
+    out_is_image (fst (exec (init_sst img) (safe_script pages) sc)).
+  Proof.
+    apply (Ph_out (snd (exec (init_sst img) (safe_script pages) sc))). apply exec_Ph. apply Ph0; try reflexivity.
+    - unfold G, view. cbn. reflexivity.
+    - unfold Hd. cbn. tauto.
+  Qed.
+End Safe.
+
+(* ---------- the guard of the model on the lock table of C11 ---------- *)
+Require Import LF.Base.RWBase LF.Gen.RWMutexGen LF.Model.Locks LF.Proofs.RWMutexProofs LF.Proofs.LocksProofs.
+(* while the reader g holds lock l (shared or exclusive), another owner's exclusive request on l is refused
+   and changes nothing: this is what [oev_allowed] encodes *)
+Lemma reader_lock_blocks_exclusive t l g h : TInv t -> gst (t l) g <> Unlocked -> h <> g ->
+  exists t', t_trylock t l h = Some (false, t') /\ forall k, gst (t' l) k = gst (t l) k.
 Proof.
-  intros HL x. unfold read_page, lpage. rewrite HL. destruct (alookup x (wpages s)); [reflexivity|].
-  unfold fpg, pg_at, file_pg. reflexivity.
+  intros HT Hg Hne. destruct (trylock_facts t l h HT) as [b [t' [E [_ [_ [Ho [Ht Hf]]]]]]].
+  destruct b.
+  - exfalso. destruct (Ht eq_refl) as [_ Hu]. apply Hg. apply Hu. intros Heq. apply Hne. symmetry. exact Heq.
+  - exists t'. split; [exact E|]. intros k. destruct (Nat.eq_dec k h) as [->|Hk]; [apply Hf; reflexivity|apply Ho; exact Hk].
 Qed.
 
-(* the late joiner *)
-Theorem snapshot_joiner sP sR : LatestEq sP -> 1 <= lockpg sP ->
-  op_receive (init (lockpg sP)) (snapshot_file sP) = (Done, sR) -> SimW sP sR.
+(* ---------- Export's order: a schedule that gives a mixture ---------- *)
+Definition pgA : pg := mkPg 1 0 false.
+Definition pgB : pg := mkPg 2 0 false.
+Definition bad_schedule : list sched :=
+  [RStep; RStep; RStep; RStep; RStep;                  (* SHARED, WRITE, position, offsets, WRITE released *)
+   REv (OWalCommit [(2, pgB)]); REv OCkpt;            (* the window: a commit, then a checkpoint *)
+   RStep; RStep; RStep; RStep].                        (* CKPT, READ, read page 1, read page 2 *)
+Lemma export_window_refuted :
+  let s := fst (exec (init_sst (fun _ => pgA)) (export_script [1; 2]) bad_schedule) in
+  s_cpos s = Some 0%nat /\ s_out s = [(1, pgA); (2, pgB)] /\ s_hist s 0%nat 2 = pgA /\ ~ out_is_image s.
 Proof.
-  intros HL Hlk H. set (f := snapshot_file sP) in *. unfold op_receive in H.
-  assert (is_snapshot f = true) as Hs by reflexivity. rewrite Hs in H. cbn [negb andb] in H.
-  destruct (apply_done _ f true sR H) as [At [Ac [Ap _]]]. pose proof (apply_lockpg _ f true sR H) as Al. cbn [lockpg with_dir init] in Al.
-  cbn [l_max l_post l_commit f snapshot_file] in At, Ac, Ap.
-  constructor; try assumption.
-  intros x Hx Hnl.
-  assert (Hwf : wf_ltx f).
-  { split; cbn [l_pages f snapshot_file].
-    - intros p q Hin. assert (In p (map fst (snap_pages sP 1 (N.to_nat (pageN sP))))) as Hk by (apply in_map_iff; exists (p, q); auto).
-      apply snap_keys_range in Hk. lia.
-    - apply snap_keys_nodup. }
-  assert (l_commit f <> 0) as Hc0 by (cbn [l_commit f snapshot_file]; lia).
-  rewrite (apply_fpg _ f true sR H Hwf Hc0 x ltac:(cbn [l_commit f snapshot_file]; exact Hx)).
-  cbn [l_pages f snapshot_file]. rewrite snap_lookup.
-  destruct (N.leb_spec 1 x); [|lia]. destruct (N.ltb_spec x (1 + N.of_nat (N.to_nat (pageN sP)))); [|lia].
-  destruct (N.eqb_spec x (lockpg sP)); [contradiction|]. cbn [andb negb].
-  rewrite <- (read_page_lpage sP HL x). destruct (read_page sP x); [reflexivity|].
-  unfold fpg, pg_at. cbn [dbfile with_dir init]. destruct (N.to_nat (x - 1)); reflexivity.
+  cbn. repeat split. unfold out_is_image. cbn. intros H. specialize (H 2 pgB (or_intror (or_introl eq_refl))). discriminate H.
 Qed.
+(* the same schedule on the safe hand-over: the checkpoint is refused while the reader holds WRITE / READ *)
+Lemma safe_on_bad_schedule :
+  let s := fst (exec (init_sst (fun _ => pgA)) (safe_script [1; 2]) (bad_schedule ++ [RStep])) in
+  s_out s = [(1, pgA); (2, pgA)].
+Proof. reflexivity. Qed.
+(* WriteSnapshotTo's self-check turns the mixture into an error: a snapshot that passes it carries, page by
+   page, the checksums of the captured position *)
+Lemma self_check_sound s n : s_cpos s = Some n -> self_check s = true ->
+  forall p q, In (p, q) (s_out s) -> pg_h q = pg_h (s_hist s n p).
+Proof.
+  unfold self_check. intros -> H p q Hin. rewrite forallb_forall in H. specialize (H (p, q) Hin). apply N.eqb_eq in H. exact H.
+Qed.
+Lemma self_check_rejects_bad_schedule :
+  self_check (fst (exec (init_sst (fun _ => pgA)) (export_script [1; 2]) bad_schedule)) = false.
+Proof. reflexivity. Qed.
 
-(* for every history of the primary into and through WAL mode: a node that starts empty and applies a snapshot of the
-   primary ends at the primary's position with the primary's logical database in its file *)
-Theorem late_joiner_history lock hs zf acts c os s1 s2 s' v' sR :
-  1 <= lock -> wf_hist (init lock) hs -> run_hsteps (init lock) hs = Some s1 ->
-  wf_tx_any s1 zf acts -> run_group s1 (hops s1 (HTx zf acts c)) = (0, s2) -> wal_mode s2 = true ->
-  wf_wops2 s2 os -> run_wops2 s2 (file_h s2) os = Some (s', v') ->
-  op_receive (init lock) (snapshot_file s') = (Done, sR) ->
-  txid sR = txid s' /\ chk sR = chk s' /\ pageN sR = pageN s' /\
-  (forall p, 1 <= p <= pageN s' -> p <> lock -> fpg sR p = lpage s' p).
-Proof.
-  intros Hl Hwf H1 Hsw H2 Hm Hww H3 HR.
-  destruct (journal_history_invariant hs (init lock) s1 (j_init lock Hl) Hwf H1) as [HJ El1].
-  change (lockpg (init lock)) with lock in El1.
-  pose proof (run_hsteps_wal_file hs (init lock) s1 H1) as Hf1. change (wal_file (init lock)) with (@nil (N * pg * N)) in Hf1.
-  pose proof (run_group_wal_file _ s1 s2 (hops_jops s1 (HTx zf acts c)) H2) as Hf2. rewrite Hf1 in Hf2.
-  pose proof (run_hsteps_latest hs (init lock) s1 H1) as Hl1. change (wal_latest (init lock)) with (@nil (N * pg)) in Hl1.
-  pose proof (run_group_latest _ s1 s2 (hops_jops s1 (HTx zf acts c)) H2) as Hl2. rewrite Hl1 in Hl2.
-  destruct (tx_step_any s1 zf acts c s2 HJ Hsw H2 Hm) as [HB [Hk [Et [_ El2]]]].
-  assert (WL s2 (file_h s2)) as HW by (apply wl_entry; [assumption|assumption|assumption|lia]).
-  pose proof (wk_entry s2 HB Hf2 Hk) as HK.
-  assert (LatestEq s2) as HL2 by (intros p; rewrite Hl2, (wpages_nil_of_file s2 Hf2); reflexivity).
-  destruct (latest_history_invariant os s2 (file_h s2) s' v' HW HK HL2 Hww H3) as [_ [_ [HL' El']]].
-  assert (lockpg s' = lock) as El by congruence.
-  rewrite <- El in HR. destruct (snapshot_joiner s' sR HL' ltac:(rewrite El; exact Hl) HR) as [A B C D E].
-  rewrite El in E. auto.
-Qed.
-
-(* a concrete history that meets the hypotheses (the non-vacuity example of Props/C01.v): the primary's file is behind its log
-   when the snapshot is taken *)
-Lemma late_joiner_example :
-  let pg h := mkPg (fl h) 0 false in
-  let pw h := mkPg (fl h) 0 true in
-  let hs := [HTx [] [AWrite 1 (pg 11); AWrite 2 (pg 12)] 2] in
-  let sw := [AWrite 1 (pw 13)] in
-  let os := [W2Commit [(2, pw 22); (3, pw 33); (2, pw 23)] 3; W2BackfillOld 2 (pw 22); W2Commit [(1, pw 14)] 2; W2Checkpoint;
-             W2Commit [(3, pw 35); (1, pw 15)] 3] in
-  exists s1 s2,
-    wf_hist (init 2097153) hs /\ run_hsteps (init 2097153) hs = Some s1 /\
-    wf_tx_any s1 [] sw /\ run_group s1 (hops s1 (HTx [] sw 2)) = (0, s2) /\ wal_mode s2 = true /\
-    wf_wops2 s2 os /\
-    match run_wops2 s2 (file_h s2) os with
-    | Some (s', v') =>
-        match op_receive (init 2097153) (snapshot_file s') with
-        | (Done, sR) => (txid sR, pageN sR, chk sR =? chk s', map (fpg sR) [1; 2; 3], map (fpg s') [1; 2; 3])
-                        = (5, 3, true, [pw 15; pw 23; pw 35], [pw 14; pw 23; zero_pg])
-        | _ => False
-        end
-    | None => False
-    end.
-Proof.
-  cbn zeta. destruct export_example as [s1 [s2 [A [B [C [D [E [F _]]]]]]]].
-  exists s1, s2. repeat (split; [assumption|]).
-  (* the states are the ones export_example computed; recompute them here *)
-  revert B D. cbn zeta. intros B D.
-  vm_compute in B. inversion B; subst s1. clear B. vm_compute in D. inversion D; subst s2. clear D.
-  vm_compute. reflexivity.
-Qed.
+(* Tie A: the order of the model's [export_script] IS the order in which db.go Export takes its locks and
+   captures (Gen/LockScriptsGen.v, regenerated on every run); WriteSnapshotTo is the same followed by the release
+   of CKPT before the page loop *)
+Require Import LF.Gen.LockScriptsGen.
+Lemma export_script_is_generated : abstract gen_export 0 = export_prefix.
+Proof. reflexivity. Qed.
+Lemma snapshot_script_is_generated : abstract gen_snapshot 0 = export_prefix ++ [SRelease SLCkpt].
+Proof. reflexivity. Qed.
+Lemma export_script_prefix pages : exists rest, export_script pages = export_prefix ++ rest.
+Proof. eexists. reflexivity. Qed.
